@@ -225,8 +225,9 @@ impl_dyn_hash!(jh_x86_64::Jh384);
 impl_dyn_hash!(jh_x86_64::Jh512);
 
 /// Output sizes (bytes) for which Skein types are instantiated.
-pub const SKEIN_N: [usize; 27] = [
-    1, 2, 3, 7, 8, 16, 20, 28, 31, 32, 33, 48, 63, 64, 65, 96, 100, 127, 128, 129, 160, 200, 256, 257, 300, 512, 1000,
+pub const SKEIN_N: [usize; 34] = [
+    1, 2, 3, 5, 6, 7, 8, 13, 16, 20, 22, 24, 28, 31, 32, 33, 40, 48, 63, 64, 65, 72, 96, 100, 127, 128, 129, 160, 200, 256, 257, 300,
+    512, 1000,
 ];
 
 macro_rules! skein_menu {
@@ -258,7 +259,8 @@ macro_rules! skein_menu {
         }
     };
 }
-skein_menu!(1 => U1, 2 => U2, 3 => U3, 7 => U7, 8 => U8, 16 => U16, 20 => U20, 28 => U28, 31 => U31,
+skein_menu!(1 => U1, 2 => U2, 3 => U3, 5 => U5, 6 => U6, 7 => U7, 8 => U8, 13 => U13, 16 => U16, 20 => U20, 22 => U22,
+    24 => U24, 28 => U28, 31 => U31, 40 => U40, 72 => U72,
     32 => U32, 33 => U33, 48 => U48, 63 => U63, 64 => U64, 65 => U65, 96 => U96, 100 => U100,
     127 => U127, 128 => U128, 129 => U129, 160 => U160, 200 => U200, 256 => U256, 257 => U257,
     300 => U300, 512 => U512, 1000 => U1000);
